@@ -2,6 +2,7 @@ package configuration
 
 import (
 	"os"
+	"path/filepath"
 	"reflect"
 
 	"github.com/rs/zerolog/log"
@@ -30,7 +31,7 @@ func EncodeYAML[T any](path string, data *T) error {
 		return marshalErr
 	}
 
-	if writeErr := os.WriteFile(path, yamlData, 0o644); writeErr != nil {
+	if writeErr := WriteFileAtomic(path, yamlData, 0o644); writeErr != nil {
 		log.Warn().Err(writeErr).Msg("failed to write yaml")
 		return writeErr
 	}
@@ -73,4 +74,28 @@ func UnmarshalPolicyRawData[T any](data []byte) (*YAMLResult[*T], error) {
 			Interface().(*T)
 	}
 	return &result, nil
+}
+
+// WriteFileAtomic writes data to a temporary file next to path and renames it over path, so that a
+// concurrent reader sees either the previous or the new content, never a truncated file.
+func WriteFileAtomic(path string, data []byte, perm os.FileMode) error {
+	tmp, err := os.CreateTemp(filepath.Dir(path), "."+filepath.Base(path)+".tmp-*")
+	if err != nil {
+		return err
+	}
+	tmpName := tmp.Name()
+	_, err = tmp.Write(data)
+	if closeErr := tmp.Close(); err == nil {
+		err = closeErr
+	}
+	if err == nil {
+		err = os.Chmod(tmpName, perm)
+	}
+	if err == nil {
+		err = os.Rename(tmpName, path)
+	}
+	if err != nil {
+		_ = os.Remove(tmpName)
+	}
+	return err
 }
